@@ -58,6 +58,8 @@ def gen_case(pid, op, seed, index):
         start = rng.choice([-1, -G.unit])
     elif 0.09 <= r < 0.14:
         start = d + rng.choice([1, G.unit])
+    if rng.random() < 0.15:
+        g.anonymise(t)          # leaves without a name: equal durations make distinct siblings ==
     return ["op", t, [op, start, new]]
 
 
